@@ -1,4 +1,5 @@
 import P2PVerif.Lemmas.SrcMbapp
+import P2PVerif.Lemmas.SrcHdr
 import P2PVerif.Model.Reasm
 import P2PVerif.Lemmas.Reasm
 /-! # C10 — reassembly never invents or mixes messages
@@ -129,5 +130,22 @@ theorem src_collector_refines (pc ts : Nat) (ops : List (Nat × Go.Bytes)) :
   obtain ⟨c, hc, hok, hrel⟩ := this ops c0 _ hok0 hrel0
   refine ⟨c, hc, hrel, ?_⟩
   rw [isComplete_eq c hok, hrel.2.2]
+
+/-- ⊢ (source) mbapp's receive path reads its header through `ParseMessage` and the getters of message.go; on every
+    datagram of at least 24 bytes they return exactly the fields of the model's `Mbapp.decode` (mode bits, error code,
+    origin time, counter, total size, part index, part count) and never fault: the (origin time, counter) key under
+    which fragments are collected and the part index/count that place them are the model's. -/
+theorem src_mbapp_header_is_decode (pkt : Go.Bytes) (hl : 24 ≤ pkt.length) :
+    ∃ hdr body, Mbapp.decode (nb pkt) = some (hdr, body) ∧
+      mbapp.ParseMessage pkt = .ok (pkt.take 24, pkt.drop 24, none) ∧ nb (pkt.drop 24) = body ∧
+      mbapp.Header.IsAsk (pkt.take 24) = .ok hdr.isAsk ∧
+      mbapp.Header.IsReply (pkt.take 24) = .ok hdr.isReply ∧
+      mbapp.Header.GetErrorCode (pkt.take 24) = .ok (UInt8.ofNat hdr.errCode) ∧
+      mbapp.Header.GetOriginTime (pkt.take 24) = .ok (UInt32.ofNat hdr.originTime) ∧
+      mbapp.Header.GetCounter (pkt.take 24) = .ok (UInt32.ofNat hdr.counter) ∧
+      mbapp.Header.GetTotalSize (pkt.take 24) = .ok (UInt32.ofNat hdr.totalSize) ∧
+      mbapp.Header.GetPartIndex (pkt.take 24) = .ok (UInt16.ofNat hdr.partIndex) ∧
+      mbapp.Header.GetPartCount (pkt.take 24) = .ok (UInt16.ofNat hdr.partCount) :=
+  SrcHdr.getters_are_decode pkt hl
 
 end P2PVerif.C10
